@@ -42,7 +42,7 @@ func c08Sig(s string) os.Signal {
 func c08Cases() []c08Case {
 	var cs []c08Case
 	for _, sig := range []string{"TERM", "HUP", "INT"} {
-		for _, sc := range []string{"serve-e2e", "after-reinit", "final-ra-fails", "idle", "pending-delay", "rs-at-stop", "periodic-due", "armed-write-2", "armed-write-3-unicast", "armed-fwd-3"} {
+		for _, sc := range []string{"serve-e2e", "after-reinit", "final-ra-fails", "idle", "pending-delay", "rs-at-stop", "periodic-due", "armed-write-2", "armed-write-2-fails", "armed-write-2-enobufs", "armed-write-3-unicast", "armed-fwd-3"} {
 			if sig == "INT" && sc != "armed-write-3-unicast" && sc != "idle" && sc != "serve-e2e" && sc != "after-reinit" && sc != "final-ra-fails" {
 				continue
 			}
@@ -87,10 +87,24 @@ func c08Scenario(c c08Case) *vsched.Scenario {
 			// Constructed stop instants: the stop thread becomes runnable exactly when
 			// a given seam call of a worker is observed.
 			switch c.Script {
-			case "armed-write-2": // the first periodic RA's WriteTo
+			case "armed-write-2", "armed-write-2-fails", "armed-write-2-enobufs": // the first periodic RA's WriteTo
 				a.hookWrite = func(n int, _ netip.Addr) {
 					if n == 2 {
 						fire()
+					}
+				}
+				if c.Script != "armed-write-2" {
+					// ... and that transmission, in flight when the stop arrives, fails.
+					nw := 0
+					a.writeFault = func(_ *fconn, _ netip.Addr) error {
+						nw++
+						if nw != 2 {
+							return nil
+						}
+						if c.Script == "armed-write-2-enobufs" {
+							return os.NewSyscallError("sendmsg", syscall.ENOBUFS)
+						}
+						return errors.New("verif: network is unreachable")
 					}
 				}
 			case "armed-write-3-unicast": // the solicited response's WriteTo
@@ -167,7 +181,7 @@ func c08Scenario(c c08Case) *vsched.Scenario {
 					vsched.Mark()
 					vsched.Sleep(time.Millisecond)
 					stop()
-				case "armed-write-2":
+				case "armed-write-2", "armed-write-2-fails", "armed-write-2-enobufs":
 					vsched.Sleep(2 * time.Second)
 					vsched.Mark()
 					vsched.Recv("harness:armed", arm)
@@ -178,6 +192,8 @@ func c08Scenario(c c08Case) *vsched.Scenario {
 					a.inject(rsFrom("fe80::5", true))
 					vsched.Recv("harness:armed", arm)
 					stop()
+				default:
+					panic("verif: C08 script without a driver: " + c.Script)
 				}
 				vsched.Sleep(5 * time.Second)
 				x.Finish()
@@ -197,6 +213,19 @@ func c08Check(c c08Case, x *vsched.Exec, a *advWorld, stopAt time.Duration) (out
 	if x.Failure != "" {
 		bad("C08:"+x.FailKind, "%s", x.Failure)
 		return out
+	}
+	if strings.HasPrefix(c.Script, "armed-write-2-") {
+		// A transmission that fails *before* anybody asked to stop is an ordinary task
+		// failure (C10's subject); C08 speaks about the executions in which the stop
+		// came first and the failure happened while stopping.
+		for _, e := range x.Log {
+			if e.Kind == "stop" {
+				break
+			}
+			if e.Kind == "write-end" && !strings.HasSuffix(e.Detail, "err=<nil>") {
+				return nil
+			}
+		}
 	}
 	terminal := c.Sig != "HUP"
 	ret, err, at := a.returned()
@@ -283,7 +312,7 @@ func c08Check(c c08Case, x *vsched.Exec, a *advWorld, stopAt time.Duration) (out
 func TestVerifC08(t *testing.T) {
 	r := ev.Begin("C08", "sched")
 	defer r.End(t)
-	r.Rule = "executions = all goroutine schedules within the deviation bound of the instrumented real Advertiser (min=max=4s, real terminator) with a stop thread (set signal, cancel) placed at: the real Server.Serve with the real signal task; a solicitation arriving on the connection opened by a re-initialisation after a link change; idle; a unicast response pending in its random delay; a solicitation arriving at the stop instant; a rate-limited periodic RA due at the stop instant; armed to become runnable exactly when the 2nd WriteTo / the unicast response's WriteTo / the 3rd forwarding read begins (with transmit latency modelled as an extra scheduling point inside WriteTo); x SIGTERM, SIGHUP (SIGINT for two); random delay draws are environment choices {0, mid, max}; oracle on the ordered observation log: Run returns nil within 1s, exactly one zero-lifetime multicast RA iff terminating, equal to the normal RA otherwise, no transmission begins after it, no I/O after Run returned or on a closed connection"
+	r.Rule = "executions = all goroutine schedules within the deviation bound of the instrumented real Advertiser (min=max=4s, real terminator) with a stop thread (set signal, cancel) placed at: the real Server.Serve with the real signal task; a solicitation arriving on the connection opened by a re-initialisation after a link change; idle; a unicast response pending in its random delay; a solicitation arriving at the stop instant; a rate-limited periodic RA due at the stop instant; armed to become runnable exactly when the 2nd WriteTo (succeeding, failing, failing with ENOBUFS) / the unicast response's WriteTo / the 3rd forwarding read begins (with transmit latency modelled as an extra scheduling point inside WriteTo); x SIGTERM, SIGHUP (SIGINT for two); random delay draws are environment choices {0, mid, max}; oracle on the ordered observation log: Run returns nil within 1s, exactly one zero-lifetime multicast RA iff terminating, equal to the normal RA otherwise, no transmission begins after it, no I/O after Run returned or on a closed connection"
 	name := func(c c08Case) string { return c.Name }
 	if !r.Thorough() {
 		exploreCases(t, r, c08Cases(), name, c08Scenario, exploreOpts{Bound: 1})
